@@ -297,6 +297,102 @@ fn labels_tokens(l: &Labels) -> String {
     }
 }
 
+/// (offset, valid at, name) of each time zone entry
+fn tz_spec(k: u64) -> Vec<(i32, u64, String)> {
+    if k >= CAP {
+        // both slots, extreme offsets, a name of the maximum length
+        vec![(-12 * 3600, 0, pad(format!("z{}", k), 64)), (14 * 3600, k, pad(format!("y{}", k), 64))]
+    } else {
+        vec![((k as i32 % 12) * 3600, 0, format!("z{}", k))]
+    }
+}
+
+fn tz_token(tz: &time_sync::TimeZoneStore) -> String {
+    let mut got: Vec<(i32, u64, String)> = Vec::new();
+    let _ = tz.time_zone(&mut |e| {
+        got.push((e.offset, e.valid_at, e.name.unwrap_or("").to_string()));
+        Ok(())
+    });
+    // nothing set: the list reads as the spec default, one entry {0, 0, no name}
+    if got.is_empty() || got == vec![(0, 0, String::new())] {
+        return "0".to_string();
+    }
+    let k: u64 = got[0].2.trim_end_matches('_').trim_start_matches('z').parse().unwrap_or(0);
+    if k != 0 && got == tz_spec(k) {
+        k.to_string()
+    } else {
+        format!("?{:?}", got).replace(' ', "")
+    }
+}
+
+fn icd_key(k: u64) -> [u8; 16] {
+    let mut b = [0u8; 16];
+    b[..8].copy_from_slice(&k.to_le_bytes());
+    b[8..].copy_from_slice(&(!k).to_le_bytes());
+    b
+}
+
+fn icd_tokens(icd: &icd_mgmt::Icd) -> String {
+    let mut v: Vec<(u8, String)> = icd.with_registrations(|regs| {
+        regs.iter()
+            .map(|r| {
+                let k = r.monitored_subject;
+                let ok = r.check_in_node_id == ICD_CLIENT && r.key.access() == &icd_key(k)[..] && (r.client_type as u8) == (k % 2) as u8;
+                (r.fab_idx.get(), format!("{}.{}{}", r.fab_idx.get(), k, if ok { "" } else { "?" }))
+            })
+            .collect()
+    });
+    v.sort();
+    if v.is_empty() {
+        "-".to_string()
+    } else {
+        v.into_iter().map(|x| x.1).collect::<Vec<_>>().join("+")
+    }
+}
+
+fn ota_value(k: u64) -> Vec<u8> {
+    tlv(|w| {
+        w.start_array(&TLVTag::Context(2))?;
+        if k != 0 {
+            w.start_struct(&TLVTag::Anonymous)?;
+            w.u64(&TLVTag::Context(1), k)?;
+            w.u16(&TLVTag::Context(2), (k % 7) as u16)?;
+            w.end_container()?;
+        }
+        w.end_container()
+    })
+}
+
+fn ota_tokens(p: &ota_req::Providers) -> String {
+    let mut v: Vec<(u8, String)> = Vec::new();
+    for i in 0..p.len() {
+        if let Some(x) = p.get(i) {
+            let ok = x.endpoint == (x.node_id % 7) as u16;
+            v.push((x.fab_idx.get(), format!("{}.{}{}", x.fab_idx.get(), x.node_id, if ok { "" } else { "?" })));
+        }
+    }
+    v.sort();
+    if v.is_empty() {
+        "-".to_string()
+    } else {
+        v.into_iter().map(|x| x.1).collect::<Vec<_>>().join("+")
+    }
+}
+
+fn scenes_tokens(sc: &scenes::ScenesState<MAX_SCENES>) -> String {
+    let mut v: Vec<(u8, String)> = Vec::new();
+    let current = sc.verif_for_each(|fab, ep, group, scene, transition, ext| {
+        let ok = ep == APP_EP && group == 0 && scene == 1 && ext == 1; // an empty extension field list is its end-of-container byte
+        v.push((fab, format!("{}.{}{}", fab, transition, if ok { String::new() } else { format!("?{}/{}/{}/{}", ep, group, scene, ext) })));
+    });
+    v.sort();
+    let mut s = if v.is_empty() { "-".to_string() } else { v.into_iter().map(|x| x.1).collect::<Vec<_>>().join("+") };
+    if current != 0 {
+        s.push_str(&format!("?current{}", current));
+    }
+    s
+}
+
 // ------------------------------------------------------------------ R: round trips of each persisted structure up to capacity
 
 fn rand_string(rng: &mut Rng, n: usize) -> String {
@@ -747,52 +843,10 @@ fn run_census(_base: &Base, f: &[&str]) -> String {
     let dev = e2e::new_matter(det, false);
     let buffers: MatterBuffers = MatterBuffers::new();
     let st = DevState::new(Nets::new());
-    let labels = Labels::new();
-    let binds = Binds::new();
-    use rs_matter::dm::clusters::{icd_mgmt, time_sync};
-    use rs_matter::dm::clusters::icd_mgmt::ClusterHandler as _;
-    use rs_matter::dm::clusters::time_sync::ClusterHandler as _;
-    let icd = icd_mgmt::Icd::new(
-        rs_matter::sc::checkin::CheckInCounter::new(0, 10),
-        icd_mgmt::IcdModeConfig {
-            idle_mode_duration_s: 60,
-            active_mode_duration_ms: 300,
-            active_mode_threshold_ms: 500,
-            user_active_mode_trigger_hint: 0,
-            user_active_mode_trigger_instruction: "",
-        },
-    );
-    let tz = time_sync::TimeZoneStore::new();
+    let app = App::new();
     let crypto = test_only_crypto();
     let access = dev.kv(kv.clone());
-    let net_ctl = NoopWirelessNetCtl::new(NetworkType::Wifi);
-    let mut rand = crypto.rand().unwrap();
-    let handler = (
-        NODE,
-        endpoints::WifiSysHandlerBuilder::new(net_ctl, &())
-            .build(crypto.rand().unwrap())
-            .chain(
-                EpClMatcher::new(Some(APP_EP), Some(desc::DescHandler::CLUSTER.id)),
-                Async(desc::DescHandler::new(Dataver::new_rand(&mut rand)).adapt()),
-            )
-            .chain(
-                EpClMatcher::new(Some(APP_EP), Some(binding::CLUSTER.id)),
-                Async(BindingHandler::new(Dataver::new_rand(&mut rand), APP_EP, &binds).adapt()),
-            )
-            .chain(
-                EpClMatcher::new(Some(APP_EP), Some(user_label::CLUSTER.id)),
-                Async(UserLabelHandler::new(Dataver::new_rand(&mut rand), APP_EP, &labels).adapt()),
-            )
-            // the two handlers that write keys of their own but take no part in a factory reset
-            .chain(
-                EpClMatcher::new(Some(0), Some(icd_mgmt::IcdMgmtHandler::CLUSTER.id)),
-                Async(icd_mgmt::IcdMgmtHandler::new(Dataver::new_rand(&mut rand), &icd).adapt()),
-            )
-            .chain(
-                EpClMatcher::new(Some(2), Some(time_sync::TimeSyncHandler::CLUSTER.id)),
-                Async(time_sync::TimeSyncHandler::new_with_time_zone(Dataver::new_rand(&mut rand), &tz).adapt()),
-            ),
-    );
+    let handler = data_model!(app, crypto);
     let dm = InteractionModel::new(&dev, &crypto, &buffers, handler, &access, &st);
     let r1 = dev.factory_reset(&access);
     let r2 = e2e::block_on(dm.factory_reset());
@@ -865,6 +919,16 @@ fn branch_cases() -> Vec<(&'static str, &'static str)> {
         ("21", "A1:60,u1:88,L1:5,F1:2,W1:9,E,Q"),
         ("21", "A1:60,L1:5,V1:7,E,Q"),
         ("21", "A1:60,u1:88,V1:7,L1:5,E"),
+        // the stores of the other handlers: time zone, trusted time source, ICD registration, OTA provider, scenes
+        ("21", "T1:3,t1:9,I1:4,o1:5,s1:6,I2:7,o2:8,s2:2,t1:9,Q,I1:0,s1:0,o1:0,t1:0"),
+        ("21", "t2:5,I2:7,o2:8,s2:2,B2:3,X1:2,Q"),
+        ("21", "I1:0,s1:0,o1:0,t1:0,T1:1005,t2:4,t1:4,Tp:2,tp:4,Ip:4,!,Q"),
+        ("11", "Ap:60,Kp:77,I2:5,s2:6,o2:7,t2:8,E,Q"),
+        // persisted subscriptions: written after the answer, resumed at start-up, dropped with their fabric
+        ("21", "D1:3,D2:4,D1:5,Q,D2:6,X1:2,Q"),
+        ("21", "D1:3,D2:4,!,Q"),
+        ("11", "D1:3,Ap:60,Kp:77,D2:4,E,Q"),
+        ("11", "D1:3,Ap:60,Kp:77,D2:4,Q"),
         // fabric removal with dependants
         ("21", "B1:4,B2:5,H:1:70,H:2:71,J,X1:2,Q"),
         ("21", "B2:5,H:2:71,H:1:70,X2:2,L1:3"),
@@ -907,7 +971,13 @@ fn generate(tier: &str, seed: u64) -> (Vec<String>, String) {
         for _ in 0..len {
             let f = if !fabs.is_empty() && rng.chance(9, 10) { *rng.pick(&fabs) } else { 1 + rng.below(4) };
             let k = if rng.chance(1, 12) { CAP + rng.below(500) } else { 1 + rng.below(9) };
-            let t = match rng.below(44) {
+            let t = match rng.below(58) {
+                56..=57 => format!("D{}:{}", f, 1 + rng.below(9)),
+                44..=45 => format!("T{}:{}", f, k),
+                46..=47 => format!("t{}:{}", f, if rng.chance(1, 5) { 0 } else { 1 + rng.below(9) }),
+                48..=50 => format!("I{}:{}", f, if rng.chance(1, 5) { 0 } else { 1 + rng.below(9) }),
+                51..=52 => format!("o{}:{}", f, if rng.chance(1, 5) { 0 } else { 1 + rng.below(9) }),
+                53..=55 => format!("s{}:{}", f, if rng.chance(1, 5) { 0 } else { 1 + rng.below(9) }),
                 0..=4 => format!("L{}:{}", f, k),
                 5..=6 => format!("G{}:{}", f, if rng.chance(1, 6) { 0 } else { k }),
                 7..=9 => format!("F{}:{}", f, k),
